@@ -28,7 +28,8 @@ static inline u32 vf_cttz32(u32 a, u1 zp){ return a==0 ? 32 : (u32)__builtin_ctz
 static inline u8 vf_ctlz8(u8 a, u1 zp){ u8 n=0; if(a==0) return 8; for(int i=7;i>=0;i--){ if((a>>i)&1) break; n++; } return n; }
 static inline u16 vf_ctlz16(u16 a, u1 zp){ u16 n=0; if(a==0) return 16; for(int i=15;i>=0;i--){ if((a>>i)&1) break; n++; } return n; }
 /* constant-size block operations (aggregate copies): the built-in models are exact for a constant size */
-static inline void vf_memcpy_c(void*d,const void*s,u64 n){ memcpy(d,s,n); }
+/* llvm.memcpy is defined for src == dst (self move-assignment of aggregates); C memcpy is not */
+static inline void vf_memcpy_c(void*d,const void*s,u64 n){ if (d != s) memcpy(d,s,n); }
 static inline void vf_memmove_c(void*d,const void*s,u64 n){ memmove(d,s,n); }
 static inline void vf_memset_c(void*d,u8 c,u64 n){ memset(d,c,n); }
 /* symbolic-size block operations: cbmc 6.11's memcpy/memmove/memset models silently drop part of the write when the
